@@ -34,7 +34,7 @@ ACTIVE = list('#$%&\\^_{}~')
 SCHEMES = ['none', 'braces', 'braces-all', 'braces-almost-all', 'braces-after-macro']
 POLICIES = ['keep', 'replace', 'ignore', 'fail', 'unihex']
 RULESETS = ['defaults', 'unicode-xml']
-CONTEXTS = ['%s', '%sa', 'a%s', '{%s}', '%s %s', '%s$', '\\%s', '%s}']
+CONTEXTS = ['%s', '%sa', 'a%s', '{%s}', '%s %s', '%s$', '\\%s', '%s}', '%s[y', '%s*', '%s[', '%s(', '%s<a']
 _TABLE = {}
 
 
